@@ -15,6 +15,7 @@ import (
 	"github.com/openfga/openfga/internal/verifsim/harness"
 	rm "github.com/openfga/openfga/internal/verifsim/refmodel"
 	"github.com/openfga/openfga/internal/verifsim/simrt"
+	"github.com/openfga/openfga/pkg/storage"
 )
 
 // C14: following continuation tokens visits every item exactly once, in the documented order.
@@ -37,6 +38,12 @@ func c14Gen(runSeed uint64, tier string) *gen.Scenario {
 	k["filter"] = int64(g.Intn(3)) // Read: none / object type+user / object
 	k["mut_seed"] = int64(g.Intn(1 << 30))
 	k["delay_mode"] = int64(g.Intn(simrt.NumModes))
+	// concurrent writers (memory backend, whose source is compiled with a scheduling point before every
+	// lock operation): the changelog they produce must still be paged without loss
+	if g.Chance(0.5) {
+		k["writers"] = int64(2 + g.Intn(4))
+		k["max_yield_ns"] = []int64{20000, 400000, 900000}[g.Intn(3)]
+	}
 	return sc
 }
 
@@ -99,8 +106,13 @@ func c14Exec(t *testing.T, sc *gen.Scenario, trace bool) *harness.Outcome {
 		for _, b := range bs {
 			// ---- data
 			var changesWant []string
-			for i := 0; i < len(tuples); i += 40 {
-				j := i + 40
+			writers := int(sc.Knob("writers", 0))
+			if b.name != "memory" {
+				writers = 0
+			}
+			var batches []gen.Op
+			for i := 0; i < len(tuples); i += 8 {
+				j := i + 8
 				if j > len(tuples) {
 					j = len(tuples)
 				}
@@ -108,11 +120,45 @@ func c14Exec(t *testing.T, sc *gen.Scenario, trace bool) *harness.Outcome {
 				for _, t := range tuples[i:j] {
 					op.Writes = append(op.Writes, toRM(t))
 				}
-				if err := srvWrite(ctx, b, e.store, op); err != nil {
-					out.Infra = fmt.Sprintf("%s: bulk write: %v", b.name, err)
-					return
+				batches = append(batches, op)
+			}
+			if writers > 1 {
+				done := make(chan error, writers)
+				for w := 0; w < writers; w++ {
+					w := w
+					e.run.Go(fmt.Sprintf("writer%d", w), func() {
+						var err error
+						for k := w; k < len(batches) && err == nil; k += writers {
+							err = srvWrite(ctx, b, e.store, batches[k])
+						}
+						done <- err
+					})
 				}
-				time.Sleep(time.Millisecond)
+				for w := 0; w < writers; w++ {
+					if err := <-done; err != nil {
+						out.Infra = fmt.Sprintf("%s: concurrent write: %v", b.name, err)
+						return
+					}
+				}
+				simrt.Probe("concurrent_writer_runs")
+				if chs, _, err := b.ds.ReadChanges(ctx, e.store, storage.ReadChangesFilter{}, storage.ReadChangesOptions{Pagination: storage.PaginationOptions{PageSize: 100000}}); err == nil {
+					for k := 1; k < len(chs); k++ {
+						if chs[k].GetTimestamp().AsTime().Before(chs[k-1].GetTimestamp().AsTime()) {
+							simrt.Probe("changelog_timestamp_inversions")
+						}
+						if chs[k].GetTimestamp().AsTime().UnixMilli() < chs[k-1].GetTimestamp().AsTime().UnixMilli() {
+							simrt.Probe("changelog_millisecond_inversions")
+						}
+					}
+				}
+			} else {
+				for _, op := range batches {
+					if err := srvWrite(ctx, b, e.store, op); err != nil {
+						out.Infra = fmt.Sprintf("%s: bulk write: %v", b.name, err)
+						return
+					}
+					time.Sleep(time.Millisecond)
+				}
 			}
 			for _, t := range tuples {
 				changesWant = append(changesWant, render(t.TupleKey()))
@@ -240,7 +286,7 @@ func c14Exec(t *testing.T, sc *gen.Scenario, trace bool) *harness.Outcome {
 						}
 					}
 					var firstToken string
-					if !follow("ReadChanges", true, want, func(token string) ([]string, string, error) {
+					if !follow("ReadChanges", writers <= 1, want, func(token string) ([]string, string, error) {
 						resp, err := b.s.ReadChanges(ctx, &openfgav1.ReadChangesRequest{StoreId: e.store, Type: typ, PageSize: wrapperspb.Int32(page), ContinuationToken: token})
 						if err != nil {
 							return nil, "", err
